@@ -62,7 +62,7 @@ def _has_nan(j):
     return False
 
 
-def _short(x, n=400):
+def _short(x, n=300):
     s = x if isinstance(x, str) else repr(x)
     return s if len(s) <= n else s[:n] + "..."
 
@@ -98,10 +98,10 @@ def check_instance(S, o, inp, schema_name):
             o2 = S.parse_raw(text)
         except Exception as e:
             bad("parse-of-own-output-raises", form=form, text=text, error="%s: %s" % (type(e).__name__, e))
-            continue
+            return V  # the other forms and the constant clauses fail for the same reason
         if not (o2 == o):
             bad("roundtrip-differs", form=form, text=text, got=o2.json() if hasattr(o2, "json") else o2)
-            continue
+            return V
         try:
             text2 = {"json": o2.json, "bytes": o2.__bytes__, "yaml": o2.yaml}[form]()
         except Exception as e:
@@ -158,7 +158,7 @@ def impl(case):
             nf[k].update(nf2[k])
             for s, n in list(nf[k].items()):
                 if n is not None and nf[k].get(n, n) != n:
-                    oracle.append(dict(kind="normal-form-not-fixed", type=k, input=s, once=n, twice=nf[k].get(n)))
+                    oracle.append(dict(kind="normal-form-not-fixed", type=k, input=s, once=n, twice=nf[k].get(n), error=G.NF_ERRORS.get((k, n), "")))
         return dict(out=None, oracle=oracle, tags=["nf-table"], nf=nf)
     from pydantic import ValidationError
 
@@ -169,19 +169,37 @@ def impl(case):
         nvalid = 0
         for i in range(case["n"]):
             inp = G.gen_model_input(rng, S, case.get("depth", 2))
+            o = None
+            for attempt in range(8):
+                try:
+                    o = S.parse_obj(json.loads(json.dumps(inp)))
+                    break
+                except ValidationError as e:
+                    if not G.repair_input(inp, e.errors()):
+                        break
+            if o is None:
+                tags.append("gen-invalid")
+                continue
+            nvalid += 1
+            oracle += check_instance(S, o, json.loads(json.dumps(inp)), case["schema"])
+            if len(inp) > 3:
+                tags.append("installed-rich")
+        tags.append("installed:%s" % case["schema"])
+        if case["schema"] in G.UNRESOLVED:
+            tags.append("forward-refs-unresolved:%s" % case["schema"])
+        if nvalid == 0:
+            tags.append("no-valid-instance:%s" % case["schema"])
+        return dict(out=None, oracle=oracle[:20], tags=tags, nvalid=nvalid)
+    if kind == "inst1":
+        S = G.installed_schemas()[case["schema"]]
+        for inp in case["inputs"]:
             try:
                 o = S.parse_obj(json.loads(json.dumps(inp)))
             except ValidationError:
                 tags.append("gen-invalid")
                 continue
-            nvalid += 1
             oracle += check_instance(S, o, inp, case["schema"])
-            if len(inp) > 3:
-                tags.append("installed-rich")
-        tags.append("installed:%s" % case["schema"])
-        if nvalid == 0:
-            tags.append("no-valid-instance:%s" % case["schema"])
-        return dict(out=None, oracle=oracle[:20], tags=tags, nvalid=nvalid)
+        return dict(out=None, oracle=oracle[:20], tags=tags + ["installed:%s" % case["schema"]], nvalid=len(case["inputs"]) - tags.count("gen-invalid"))
     if kind == "fam":
         F = G.Family(case["fam"])
         try:
@@ -406,58 +424,101 @@ def run(ctx):
 def signature(case, detail):
     if not isinstance(detail, dict):
         return "%s:%s" % (ID, str(detail)[:40])
-    return "%s:%s:%s" % (ID, detail.get("kind"), detail.get("form", detail.get("type", "")))
+    kind = detail.get("kind")
+    if kind == "normal-form-not-fixed":
+        cause = ":offset-unit" if "offset unit" in str(detail.get("error", "")).lower() else ""
+        return "%s:%s:%s%s" % (ID, kind, detail.get("type"), cause)
+    where = case.get("schema") if case.get("kind") in ("inst", "inst1") else "generated"
+    return "%s:%s:%s" % (ID, kind, where)
+
+
+def _fails(case, want):
+    r = pool.run_one(MOD, "impl", case, timeout=300)
+    ds = [d for d in r.get("ok", {}).get("oracle", []) if d.get("kind") == want]
+    return ds[0] if ds else None
+
+
+def _shrink_json(obj, test, budget):
+    """Greedy structural shrinking of a JSON input: drop dict keys / list items (outermost
+    first), as long as `test(candidate)` still fails."""
+    changed = True
+    while changed and budget[0] > 0:
+        changed = False
+        paths = []
+
+        def walk(x, path):
+            if isinstance(x, dict):
+                for k in x:
+                    paths.append(path + [k])
+                for k, v in x.items():
+                    walk(v, path + [k])
+            elif isinstance(x, list):
+                for i in range(len(x)):
+                    paths.append(path + [i])
+                for i, v in enumerate(x):
+                    walk(v, path + [i])
+
+        walk(obj, [])
+        paths.sort(key=len)
+        for pth in paths:
+            cand = json.loads(json.dumps(obj))
+            cur = cand
+            for x in pth[:-1]:
+                cur = cur[x]
+            del cur[pth[-1]]
+            budget[0] -= 1
+            if budget[0] <= 0:
+                break
+            if test(cand):
+                obj = cand
+                changed = True
+                break
+    return obj
 
 
 def shrink(ctx, case, detail):
-    if case.get("kind") != "fam" or not isinstance(detail, dict):
+    if not isinstance(detail, dict) or case.get("kind") not in ("fam", "inst", "inst1"):
         return case, detail
     want = detail.get("kind")
-
-    def fails(c):
-        r = pool.run_one(MOD, "impl", c, timeout=120)
-        ds = [d for d in r.get("ok", {}).get("oracle", []) if d.get("kind") == want]
-        return ds[0] if ds else None
+    if case["kind"] in ("inst", "inst1"):
+        inp = detail.get("input")
+        if not isinstance(inp, dict):
+            return case, detail
+        mk = lambda i: dict(kind="inst1", schema=case["schema"], inputs=[i])  # noqa: E731
+        if not _fails(mk(inp), want):
+            return case, detail
+        inp = _shrink_json(inp, lambda c: _fails(mk(c), want), [120])
+        return mk(inp), _fails(mk(inp), want) or detail
 
     cur, det = case, detail
     # single input
     for inp in case["inputs"]:
         c = dict(case, inputs=[inp])
-        d = fails(c)
+        d = _fails(c, want)
         if d:
             cur, det = c, d
             break
-    # drop keys of the input
-    changed = True
+    inp = _shrink_json(cur["inputs"][0], lambda c: _fails(dict(cur, inputs=[c]), want), [60])
+    cur = dict(cur, inputs=[inp])
+    # drop fields / constants not needed
     tests = 0
-    while changed and tests < 40:
-        changed = False
-        inp = cur["inputs"][0]
-        for k in list(inp):
-            c = dict(cur, inputs=[{kk: v for kk, v in inp.items() if kk != k}])
-            tests += 1
-            d = fails(c)
-            if d:
-                cur, det, changed = c, d, True
-                break
-    # drop fields / constants not used
     for cd_i in range(len(cur["fam"])):
         for part in ("fields", "consts"):
             j = 0
-            while j < len(cur["fam"][cd_i][part]) and tests < 80:
+            while j < len(cur["fam"][cd_i][part]) and tests < 60:
                 fam2 = json.loads(json.dumps(cur["fam"]))
                 del fam2[cd_i][part][j]
                 c = dict(cur, fam=fam2)
                 tests += 1
                 try:
-                    d = fails(c)
+                    d = _fails(c, want)
                 except Exception:
                     d = None
                 if d:
                     cur, det = c, d
                 else:
                     j += 1
-    return cur, det
+    return cur, _fails(cur, want) or det
 
 
 def search(ctx):
